@@ -75,6 +75,7 @@ var targets = []string{
 	"RouterJSR311.selectRoutes",
 	"RouterJSR311.detectDispatcher",
 	"RouterJSR311.SelectRoute",
+	"wantsCompressedResponse",
 	"RouterJSR311.extractParams",
 	"RouterJSR311.ExtractParameters",
 	"CrossOriginResourceSharing.isOriginAllowed",
